@@ -8,6 +8,7 @@ pub mod c06;
 pub mod c08;
 pub mod c09;
 pub mod c10;
+pub mod c11;
 pub mod c12;
 pub mod c15;
 pub mod c17;
@@ -60,6 +61,7 @@ pub fn dispatch(run: &mut Run) -> bool {
         "C08" => c08::run(run),
         "C09" => c09::run(run),
         "C10" => c10::run(run),
+        "C11" => c11::run(run),
         "C12" => c12::run(run),
         "C15" => c15::run(run),
         "C17" => c17::run(run),
